@@ -43,6 +43,37 @@ pub(super) fn captured_nodes(
     for node_index in nodes_to_visit {
         let node = &call_graph[node_index];
 
+        // Matching on a `Result` doesn't create a new value: the `Ok` and `Err` variants
+        // hold onto whatever the `Result` they were extracted from holds onto.
+        let is_match = match node {
+            CallGraphNode::MatchBranching => true,
+            CallGraphNode::Compute { component_id, .. } => matches!(
+                component_db
+                    .hydrated_component(*component_id, computation_db)
+                    .computation(),
+                Computation::MatchResult(_)
+            ),
+            CallGraphNode::InputParameter { .. } => false,
+        };
+        if is_match {
+            let mut inherited = IndexSet::new();
+            for edge_ref in call_graph.edges_directed(node_index, Direction::Incoming) {
+                if let CallGraphEdgeMetadata::HappensBefore = edge_ref.weight() {
+                    continue;
+                }
+                if let Some(captured) = node2captured_nodes.get(&edge_ref.source()) {
+                    inherited.extend(captured.iter().copied());
+                }
+            }
+            if !inherited.is_empty() {
+                node2captured_nodes
+                    .entry(node_index)
+                    .or_default()
+                    .extend(inherited);
+            }
+            continue;
+        }
+
         let mut directly_borrowed = IndexSet::new();
         let mut captured = IndexSet::new();
         if let Some(hydrated_component) = node.as_hydrated_component(component_db, computation_db)
